@@ -174,7 +174,18 @@ void runC08(const Scenario& sc, vf::Result& res) {
         }
         // quiescent operations between phases (the engine performs them only when no search runs)
         int q = (int)r.below(6);
-        if (q == 0) { tt.clear(); S.registry.clear(); tbResident = false; res.counters["op_clear"]++; }
+        if (q == 0) {
+            tt.clear();
+            S.registry.clear();
+            res.counters["op_clear"]++;
+            if (tbResident) {
+                int sc2;
+                if (tt.probeDTM(tbRoot, 0, sc2))
+                    res.violate("C08", "tablebase-survives-clear", "after clear() the on-demand tablebase still answers although its memory was zeroed and is used for hashing again");
+                res.counters["probe_clear_with_resident_table"]++;
+            }
+            tbResident = false;
+        }
         else if (q == 1) {
             static const U64 sizes[] = {512, 516, 1000, 1024, 4096, 65536, 65536 * 3, 100000, 262144, 524288 + 4, 65536 * 8, 65536 * 16};
             U64 ne = sizes[r.below(sizeof(sizes) / sizeof(sizes[0]))];
@@ -199,6 +210,7 @@ void runC08(const Scenario& sc, vf::Result& res) {
             try {
                 if (tt.updateTB(p, maxT)) {
                     tbResident = true;
+                    tbRoot = p;
                     tbSum = regionChecksum(tt, 5 * 1024 * 1024);
                     res.counters["op_update_tb"]++;
                     // entries that lived in the region that now holds the tablebase are gone; others stay valid
